@@ -81,7 +81,7 @@ func New(env *hx.Env) *R {
 	add("M", hx.Mod(cstypes.ModuleName))
 	add("FC", hx.Mod(authtypes.FeeCollectorName))
 	r.addrs["GOV"] = sdk.MustAccAddressFromBech32(hx.Authority())
-	r.denoms = append([]string{"stake", "ustd", "ufee", "junk"}, tokens...)
+	r.denoms = append([]string{"stake", "ustd", "ufee", "junk", "abc-1", "abc-2"}, tokens...) // abc-N: foreign coins spelled like a liquidity denom
 	for i := 1; i <= nPool; i++ {
 		r.denoms = append(r.denoms, cstypes.GetLptDenom(uint64(i)))
 	}
@@ -272,7 +272,7 @@ func (r *R) ResetLine(g *hx.Rng) string {
 		pcfAmt = sdkmath.NewIntFromBigInt(g.BigRaw(100 + g.Intn(20))).AddRaw(1)
 	}
 	var funds []string
-	ds := append([]string{std, "junk"}, tokens...)
+	ds := append([]string{std, "junk", "abc-1", "abc-2"}, tokens...)
 	if pcfDenom != std {
 		ds = append(ds, pcfDenom)
 	}
